@@ -290,6 +290,7 @@ static int l1_mosaic_context(const uint8_t *row, int col)
 
 static int f_x26_moved;
 
+static long f_x26_rowcolour;
 static void gen_x26(struct vf_rng *r, struct tx *t, int ndes, unsigned invocation)
 {
 	unsigned trips[MAXX26 * 13];
@@ -302,7 +303,10 @@ static void gen_x26(struct vf_rng *r, struct tx *t, int ndes, unsigned invocatio
 	for (i = 0; i < nr && n < max - 2; i++) {
 		int col = vf_range(r, 0, 8), k, nc = vf_range(r, 1, 4);
 		rr = rows[i];
-		trips[n++] = tx_triplet((unsigned)(rr == 24 ? 40 : 40 + rr), 0x04, (unsigned)col);
+		/* the row is addressed by "set active position" or, one time in three, by a "full row colour" triplet, which
+		 * moves the active position to that row as well (EN 300 706 12.3.3) */
+		if (vf_chance(r, 1, 3)) { trips[n++] = tx_triplet((unsigned)(rr == 24 ? 40 : 40 + rr), 0x01, (unsigned)(vf_below(r, 0x20) | vf_below(r, 4) << 5)); f_x26_rowcolour++; }
+		else trips[n++] = tx_triplet((unsigned)(rr == 24 ? 40 : 40 + rr), 0x04, (unsigned)col);
 		for (k = 0; k < nc && n < max - 1 && col < 40; k++) {
 			unsigned mode, data;
 			switch (vf_below(r, 10)) {
